@@ -275,3 +275,140 @@ def cfg(body):
     if k not in _cfgs:
         _cfgs[k] = CFG(body)
     return _cfgs[k]
+
+
+# ----------------------------------------------------------------------------
+# call graph
+class CallGraph:
+    """edges between local MIR bodies: resolved calls; class-hierarchy resolution (all local impls of the
+    trait method) for trait calls rustc could not resolve in the generic body; closure construction = edge to
+    the closure body (it may be invoked by the callee it is handed to)."""
+
+    def __init__(self, facts):
+        self.f = facts
+        self.edges = {}
+        self.ext = {}      # body path -> set of external callee paths (resolved where possible)
+        self.cha_used = {}
+        impl_methods = {}  # (trait, method name) -> [paths]
+        for path, b in facts.mir.items():
+            imp = b.get("impl") or {}
+            if imp.get("trait") and b["defkind"] == "AssocFn":
+                impl_methods.setdefault((imp["trait"], b["name"]), []).append(path)
+        for path, b in facts.mir.items():
+            out, ext = set(), set()
+            for bl in b["blocks"]:
+                for s in bl["stmts"]:
+                    if s["k"] == "Assign" and s["rv"]["k"] == "Aggregate" and s["rv"].get("agg") == "Closure":
+                        out.add(s["rv"]["def"])
+                t = bl["term"]
+                if t["k"] not in ("Call", "TailCall"):
+                    continue
+                fn = callee_fn(t)
+                if fn is None:
+                    continue
+                # fn items passed as arguments (function pointers) are potential callees too
+                tgt = fn.get("resolved") or None
+                if tgt and tgt in facts.mir:
+                    out.add(tgt)
+                elif tgt:
+                    ext.add(tgt)
+                    # a generic external callee may call back local trait impls via its arguments; closures handled above
+                else:
+                    tr = fn.get("trait")
+                    if tr and (tr, fn["name"]) in impl_methods:
+                        for p in impl_methods[(tr, fn["name"])]:
+                            out.add(p)
+                        self.cha_used.setdefault(path, set()).add("%s::%s" % (tr, fn["name"]))
+                    elif fn["def"] in facts.mir:
+                        out.add(fn["def"])
+                    else:
+                        ext.add(fn["def"])
+                for a in t["args"]:
+                    if a["k"] == "Const" and "fn" in a:
+                        p = a["fn"].get("resolved") or a["fn"]["def"]
+                        if p in facts.mir:
+                            out.add(p)
+                    if a["k"] == "Const" and "closure" in a and a["closure"] in facts.mir:
+                        out.add(a["closure"])
+            # function items / closures mentioned as plain constants in statements
+            for bl in b["blocks"]:
+                for s in bl["stmts"]:
+                    if s["k"] == "Assign":
+                        for o in _operands(s["rv"]):
+                            if o["k"] == "Const":
+                                if "fn" in o:
+                                    p = o["fn"].get("resolved") or o["fn"]["def"]
+                                    if p in facts.mir:
+                                        out.add(p)
+                                if "closure" in o and o["closure"] in facts.mir:
+                                    out.add(o["closure"])
+            self.edges[path] = out
+            self.ext[path] = ext
+
+    def reachable(self, roots):
+        seen, st = set(), list(roots)
+        while st:
+            x = st.pop()
+            if x in seen:
+                continue
+            seen.add(x)
+            st.extend(self.edges.get(x, ()))
+        return seen
+
+    def sccs(self, nodes):
+        """Tarjan over the sub-graph induced by nodes; returns list of SCCs (lists) with size>1 or self loop"""
+        index, low, stack, on, out = {}, {}, [], set(), []
+        counter = [0]
+        import sys
+        sys.setrecursionlimit(10000)
+
+        def strong(v):
+            index[v] = low[v] = counter[0]
+            counter[0] += 1
+            stack.append(v)
+            on.add(v)
+            for w in self.edges.get(v, ()):
+                if w not in nodes:
+                    continue
+                if w not in index:
+                    strong(w)
+                    low[v] = min(low[v], low[w])
+                elif w in on:
+                    low[v] = min(low[v], index[w])
+            if low[v] == index[v]:
+                comp = []
+                while True:
+                    w = stack.pop()
+                    on.discard(w)
+                    comp.append(w)
+                    if w == v:
+                        break
+                if len(comp) > 1 or v in self.edges.get(v, ()):
+                    out.append(comp)
+        for v in sorted(nodes):
+            if v not in index:
+                strong(v)
+        return out
+
+
+def _operands(rv):
+    k = rv["k"]
+    if k in ("Use", "Cast", "Repeat", "WrapUnsafeBinder"):
+        return [rv["op"]]
+    if k == "BinaryOp":
+        return [rv["l"], rv["r"]]
+    if k == "UnaryOp":
+        return [rv["e"]]
+    if k == "Aggregate":
+        return rv["ops"]
+    return []
+
+
+_cg = {}
+
+
+def callgraph(facts):
+    k = id(facts)
+    if k not in _cg:
+        _cg[k] = CallGraph(facts)
+    return _cg[k]
